@@ -7,15 +7,19 @@ rfc2671RROptPack, rfc1035BuildAQuery = rfc3596BuildHostQuery). Lemmas: `Dns.Safe
 `Dns.Counter`. The limits (63, 256, 191, 64, 0x3FFF, 12, 10, 4, type codes) come from `Gen.DnsLimits`, regenerated from
 the staged source every run. Every statement is for all byte lists / all messages: no size bound.
 
+The model follows the tree as it is after /repo 17d6e84 (rfc1035RRPack copies the RDATA only `if (RR->rdlength)`) and
+fd17dd6 (a compression pointer that led to the root label only makes the caller drop its trailing '.'); which version
+the tree has is read from the source every run (`Gen.DnsLimits.ptrRootDropsDot`, `rrPackGuardsNull`, `source_flags`).
+The theorems named `prefix_*` are about the code BEFORE those commits (`nameUnpackV false`, `optPackV false`), kept as
+a record of the two defects that were fixed.
+
 Full statement of the faithfulness part, as the property gives it:
     for every well-formed message, with or without name compression, the decoded header, question and
     A/AAAA/PTR/CNAME records equal those encoded.
-It is FALSE of the real code in two regions, proved below as counterexamples:
-  * a name whose decoding needs more than `maxRdepth + 1` = 65 pointer hops is refused (`deep_chain_counterexample`);
-  * a label followed by a pointer that leads to the root label decodes with a trailing dot
-    (`pointer_to_root_counterexample`).
-`unpack_encodes_partial` is the statement with exactly these two regions excluded (they are the hypotheses
-`d ≤ maxRdepth + 1` and `labels ≠ []` of `EncName.ptr` inside `EncMsg`).
+One region is left where it is FALSE of the real code (known finding, a deliberate loop guard): a name whose decoding
+needs more than `maxRdepth + 1` = 65 pointer hops is refused (`deep_chain_counterexample`). `unpack_encodes_partial` is
+the statement with exactly this region excluded (the hypothesis `d ≤ maxRdepth + 1` inside `EncRR` / `EncMsg`);
+pointers to the root label need no exclusion any more.
 -/
 import SquidModel.Dns.Roundtrip
 import SquidModel.Dns.Counter
@@ -56,13 +60,18 @@ example : messageUnpack [0x12, 0x34, 0x81, 0x80, 0, 1, 0, 0, 0, 0, 0, 0, 192, 12
 /-! ## faithfulness -/
 
 /-- **Names.** If `labels` is encoded at `off` (labels of 1..63 octets, compression pointers to encodings of the rest
-of the name anywhere in the datagram, `d ≤ 65` pointer hops, no pointer to a bare root label) and the dotted name with
-its NUL fits the 256-byte buffer, rfc1035NameUnpack returns 0, leaves `*off` at the end of the linear part, reports
-the wire length of the labels, and stores exactly the labels joined by '.' and a NUL. -/
+of the name anywhere in the datagram — the root label included —, `d ≤ 65` pointer hops) and the dotted name with its
+NUL fits the 256-byte buffer, rfc1035NameUnpack returns 0, leaves `*off` at the end of the linear part, reports the
+wire length of the labels, and the C string it leaves in the buffer is exactly the labels joined by '.'. -/
 theorem name_unpack_encodes_partial (buf : Bytes) (d off e : Nat) (labels : List Bytes)
     (henc : EncName buf d off labels e) (hd : d ≤ maxRdepth + 1) (hfit : wireLen labels < nameBufSz) :
-    nameUnpack buf off nameBufSz = .ok ⟨e, wireLen labels, nameOut labels⟩ :=
+    ∃ out, nameUnpack buf off nameBufSz = .ok ⟨e, wireLen labels, out⟩ ∧ cstr out = nameText labels :=
   nameUnpack_enc henc hd hfit
+
+/-- `nameText` is the labels joined by '.' (for labels without NUL) -/
+theorem name_text_is_dotted (labels : List Bytes) (h : ∀ l ∈ labels, ∀ c ∈ l, c ≠ 0) :
+    nameText labels = hostText labels :=
+  nameText_eq_hostText labels h
 
 /-- **Records.** An encoded resource record (owner name possibly compressed; PTR target possibly compressed and inside
 its RDATA; A, AAAA, CNAME and every other type as raw RDATA) is unpacked to exactly that record, and `*off` ends
@@ -85,7 +94,7 @@ decoder stored at the dots gives back exactly the labels that were encoded — s
 text encode the same name, and "equal as text" in the theorems above means "equal as names". -/
 theorem decoded_text_determines_labels (labels : List Bytes)
     (h : ∀ l ∈ labels, l ≠ [] ∧ ∀ c ∈ l, c ≠ 46 ∧ c ≠ 0) :
-    tokens (cstr (nameOut labels)) = labels :=
+    tokens (nameText labels) = labels :=
   tokens_cstr_nameOut labels h
 
 /-- the encoding relation does not depend on what follows (authority/additional sections, padding) -/
@@ -102,17 +111,18 @@ theorem header_roundtrip (h : Header) (hwf : h.wf) (sz : Nat) (hsz : 12 ≤ sz) 
 octets) and which is shorter than the name buffer, and a buffer with room for the packet, rfc1035BuildAQuery /
 rfc1035BuildPTRQuery / rfc3596BuildHostQuery produce a packet of exactly 12 + name + 4 (+ 11 with EDNS) octets which
 rfc1035MessageUnpack decodes to: result 0, id `qid`, only RD set, one question with the dotted name, the query type,
-class IN, no records, ARCOUNT = 1 exactly with EDNS; the `rfc1035_query` handed back describes the same question. -/
+class IN, no records, ARCOUNT = 1 exactly with EDNS; the `rfc1035_query` handed back describes the same question; no
+memcpy with a null pointer on the way (`b.ub = false`). -/
 theorem query_roundtrip (sz : Nat) (host : Bytes) (labels : List Bytes) (qid qtype : Nat) (edns : Int)
     (htok : tokens host = labels)
     (hlab : ∀ l ∈ labels, 1 ≤ l.length ∧ l.length ≤ maxLabelSz)
     (hfit : wireLen labels < nameBufSz)
     (hsz : 12 + wireLen labels + 1 + 4 + (if edns > 0 then 11 else 0) ≤ sz) :
-    ∃ b, buildQuery sz host qid qtype edns = .ok b ∧ b.ub = decide (edns > 0) ∧
+    ∃ b, buildQuery sz host qid qtype edns = .ok b ∧ b.ub = false ∧
       b.pkt.length = 12 + wireLen labels + 1 + 4 + (if edns > 0 then 11 else 0) ∧
       b.qname = host.take (nameBufSz - 1) ∧ b.qtype = qtype % 65536 ∧ b.qclass = classIN ∧
       messageUnpack b.pkt = .ret 0 (some
-        ⟨queryHeader qid (if edns > 0 then 1 else 0), ⟨nameOut labels, qtype % 65536, classIN⟩, []⟩) :=
+        ⟨queryHeader qid (if edns > 0 then 1 else 0), ⟨nameText labels, qtype % 65536, classIN⟩, []⟩) :=
   query_pack_unpack sz host labels qid qtype edns htok hlab hfit hsz
 
 /-- The same from the labels: for the host text `l₁.l₂.….lₙ` (labels of 1..63 octets without '.'), with or without a
@@ -123,7 +133,7 @@ theorem query_roundtrip_text (sz : Nat) (labels : List Bytes) (qid qtype : Nat) 
     (hsz : 12 + wireLen labels + 1 + 4 + (if edns > 0 then 11 else 0) ≤ sz) :
     ∃ b, buildQuery sz (hostText labels ++ (if trailingDot then [46] else [])) qid qtype edns = .ok b ∧
       messageUnpack b.pkt = .ret 0 (some
-        ⟨queryHeader qid (if edns > 0 then 1 else 0), ⟨nameOut labels, qtype % 65536, classIN⟩, []⟩) := by
+        ⟨queryHeader qid (if edns > 0 then 1 else 0), ⟨nameText labels, qtype % 65536, classIN⟩, []⟩) := by
   have hd : ∀ l ∈ labels, l ≠ [] ∧ ∀ c ∈ l, c ≠ 46 := fun l hl => by
     obtain ⟨h1, _, h3⟩ := hlab l hl
     exact ⟨fun h => by simp [h] at h1, h3⟩
@@ -135,7 +145,13 @@ theorem query_roundtrip_text (sz : Nat) (labels : List Bytes) (qid qtype : Nat) 
     (fun l hl => ⟨(hlab l hl).1, (hlab l hl).2.1⟩) hfit hsz
   exact ⟨b, hb, hdec⟩
 
-/-! ## where the real code departs from the property (known findings) -/
+/-! ## which code the model follows -/
+
+/-- the staged tree has both fixes (re-decided on the regenerated `Gen.DnsLimits` every run; if the source regressed,
+this and with it the theorems above would stop checking) -/
+theorem source_flags : ptrRootDropsDot = true ∧ rrPackGuardsNull = true := by decide
+
+/-! ## where the real code departs from the property (known finding) -/
 
 /-- 66 pointer hops: `chainBuf 66` is `01 'a' 00` followed by 66 pointers, each two octets pointing to the previous
 name (strictly backwards, no loop). Its last name is an encoding of "a" by the rules of `EncName`, and the decoder
@@ -146,20 +162,25 @@ theorem deep_chain_counterexample :
     nameUnpack (chainBuf 65) (chainStart 65) nameBufSz = .ok ⟨133, 2, [97, 0]⟩ :=
   ⟨chain_enc 66 (by omega), chain66_rejected, chain65_decodes⟩
 
-/-- `03 'foo' C0 06 00`: the label "foo", then a pointer to the root label at offset 6 — the name "foo". The decoder
-stores "foo." (and counts 4), while the same name without the pointer is stored as "foo". -/
-theorem pointer_to_root_counterexample :
-    nameUnpack [3, 102, 111, 111, 192, 6, 0] 0 nameBufSz = .ok ⟨6, 4, [102, 111, 111, 46, 0]⟩ ∧
-    nameUnpack [3, 102, 111, 111, 0] 0 nameBufSz = .ok ⟨5, 4, [102, 111, 111, 0]⟩ :=
-  ⟨ptr_to_root_decodes_with_dot, plain_decodes_without_dot⟩
+/-! ## the two fixed defects: regression statement for the code as it is, counterexample for the code as it was -/
 
-/-- every query built with EDNS passes through `memcpy(buf + off, nullptr, 0)` in rfc1035RRPack (undefined behaviour) -/
-theorem edns_query_memcpy_null_counterexample (sz : Nat) (host : Bytes) (labels : List Bytes) (qid qtype : Nat) (edns : Int)
-    (htok : tokens host = labels) (hlab : ∀ l ∈ labels, 1 ≤ l.length ∧ l.length ≤ maxLabelSz)
-    (hfit : wireLen labels < nameBufSz) (he : edns > 0) (hsz : 12 + wireLen labels + 1 + 4 + 11 ≤ sz) :
-    ∃ b, buildQuery sz host qid qtype edns = .ok b ∧ b.ub = true := by
-  obtain ⟨b, hb, hub, _⟩ := query_pack_unpack sz host labels qid qtype edns htok hlab hfit (by simpa [he] using hsz)
-  exact ⟨b, hb, by simpa [he] using hub⟩
+/-- `03 'foo' C0 06 00` (label "foo", then a pointer to the root label): the buffer now holds "foo", as for the same
+name without the pointer -/
+theorem pointer_to_root_decodes :
+    nameUnpack [3, 102, 111, 111, 192, 6, 0] 0 nameBufSz = .ok ⟨6, 4, [102, 111, 111, 0, 0]⟩ ∧
+    nameUnpack [3, 102, 111, 111, 0] 0 nameBufSz = .ok ⟨5, 4, [102, 111, 111, 0]⟩ :=
+  ⟨ptr_to_root_decodes, plain_decodes_without_dot⟩
+
+/-- PRE-FIX (before fd17dd6): the same input was stored as "foo." -/
+theorem prefix_pointer_to_root_counterexample :
+    nameUnpackV false [3, 102, 111, 111, 192, 6, 0] 0 nameBufSz = .ok ⟨6, 4, [102, 111, 111, 46, 0]⟩ :=
+  prefix_ptr_to_root_decodes_with_dot
+
+/-- PRE-FIX (before 17d6e84): packing the EDNS OPT record passed through `memcpy(buf + off, nullptr, 0)`; with the
+guard it does not (same octets) -/
+theorem prefix_opt_pack_memcpy_null_counterexample (sz edns : Nat) (hsz : 11 ≤ sz) :
+    optPackV false sz edns = .ok (optBytes edns, true) ∧ optPack sz edns = .ok (optBytes edns, false) :=
+  ⟨optPackV_ok false sz edns hsz, optPack_ok sz edns hsz⟩
 
 /-! ## the hypotheses are satisfiable, the relations are not vacuous -/
 
@@ -172,8 +193,8 @@ def samplePkt : Bytes :=
 def sampleMsg : Msg :=
   ⟨{ id := 0x1234, qr := 1, opcode := 0, aa := 0, tc := 0, rd := 1, ra := 1, rcode := 0,
      qdcount := 1, ancount := 1, nscount := 0, arcount := 0 },
-   ⟨[97, 0], 1, 1⟩,
-   [⟨[97, 0], 1, 1, 5, 4, [1, 2, 3, 4]⟩]⟩
+   ⟨[97], 1, 1⟩,
+   [⟨[97], 1, 1, 5, 4, [1, 2, 3, 4]⟩]⟩
 
 theorem sample_name : EncName samplePkt 0 12 [[97]] 15 :=
   EncName.label (c := 1) (by decide) (by decide) (by decide) (by decide) (by decide)
@@ -184,7 +205,7 @@ theorem sample_encodes : EncMsg samplePkt sampleMsg := by
           by decide, by decide, by decide, ?_⟩
   refine EncRRs.cons (off' := 35) ?_ EncRRs.nil
   have hptr : EncName samplePkt 1 19 [[97]] 21 :=
-    EncName.ptr (e' := 15) (hi := 192) (lo := 12) (by decide) (by decide) (by decide) (by exact sample_name) (by decide)
+    EncName.ptr (e' := 15) (hi := 192) (lo := 12) (by decide) (by decide) (by decide) (by exact sample_name)
   exact EncRR.raw (rdata := [1, 2, 3, 4]) hptr (by decide) (by decide) (by decide) (by decide) (by decide) (by decide)
     (by decide) (by decide)
 
